@@ -4,7 +4,7 @@
    Only statements, each closed by [exact] of a lemma proved elsewhere, and their assumptions. *)
 From Coq.Strings Require Import String.
 From EV Require Import Base.Bytes Base.Store Base.Monad gen.Consts gen.AppendSites
-  Ledger.Types Ledger.Transfers SliceModel.Slice SliceModel.AppendSafety SliceModel.ExecDeterminism.
+  Ledger.Types Ledger.Transfers SliceModel.Slice SliceModel.AppendSafety SliceModel.ExecDeterminism SliceModel.OutputShape.
 
 (* the three shared key prefixes the property text names, pinned against the generated constants *)
 Example C13_pinned_prefixes :
@@ -27,6 +27,19 @@ Example C13_histories_nonvacuous : forall E s,
              i_gasLocked := 0; i_callType := 0; i_rae := false; i_snd := false; i_dst := false |})] s
   = after E [] s.
 Proof. exact histories_example. Qed.
+
+(* "independent of map iteration order": VMOutput.OutputAccounts is the only map an observer of a call could
+   iterate; a successful execution of any of the 23 functions yields at most one output account *)
+Theorem C13_output_accounts_at_most_one : forall E f i s o s',
+  exec E f i s = (Ok o, s') -> List.length (o_accounts o) <= 1.
+Proof. exact output_accounts_at_most_one. Qed.
+Example C13_one_output_account_nonvacuous :
+  exists o s', exec shape_env C.BuiltInFunctionSetUserName
+                 {| i_caller := [x01]; i_rcpt := [x02]; i_args := [[x61]]; i_value := 0; i_gas := 5; i_gasLocked := 0;
+                    i_callType := 0; i_rae := false; i_snd := true; i_dst := false |}
+                 {| accts := []; calls := 0; allocs := 0 |} = (Ok o, s')
+               /\ List.length (o_accounts o) = 1.
+Proof. exact one_output_account_example. Qed.
 
 (* ---- Go slices: when can an append disturb somebody else's data ---- *)
 (* cap = len: no existing array is written, a non-empty append lives in the new array *)
@@ -122,6 +135,8 @@ Print Assumptions C13_exec_deterministic.
 Print Assumptions C13_exec_history_independent.
 Print Assumptions C13_after_history_independent.
 Print Assumptions C13_histories_nonvacuous.
+Print Assumptions C13_output_accounts_at_most_one.
+Print Assumptions C13_one_output_account_nonvacuous.
 Print Assumptions C13_append_fresh_when_full.
 Print Assumptions C13_append_private_invisible.
 Print Assumptions C13_append_preserves_all_views_refuted.
